@@ -3,7 +3,7 @@
    builders that wrap it are modelled in Lib.v. *)
 From Coq Require Import String List Bool ZArith.
 Require Import SV.Base.Json SV.Model.Kinds SV.Model.Syntax SV.Model.Expand SV.Model.Sem SV.Model.Lib.
-Require Import SV.Facts.SemFacts SV.Facts.WrapperFacts SV.Facts.RemoteFacts SV.Facts.LibFacts.
+Require Import SV.Facts.SemFacts SV.Facts.WrapperFacts SV.Facts.RemoteFacts SV.Facts.BuilderFacts.
 Import ListNotations.
 Open Scope string_scope.
 
